@@ -30,6 +30,13 @@ def gen_cases(ck):
                       "bound_factor": float(ck.rng.choice([0.2, 0.45, 0.45, 1.6])), "renumber": True,
                       "cm": bool(ck.rng.integers(2)), "guess_frac": float(ck.rng.choice([0.0, 0.0, 0.3])),
                       "times": "equal"})
+    for i in range(6 if ck.tier == "quick" else 40):
+        # a user-supplied pairing whose target is the vertex with id 0 (and only that one, or together with others)
+        cases.append({"type": "series", "seed": int(ck.rng.integers(1 << 30)), "tissue": ["random", "jitter", "hex"][i % 3],
+                      "sites": int(ck.rng.integers(12, 26)), "subset": None, "min_ridge": 0.01, "mobius": False, "kmin": 0, "kmax": 3,
+                      "angle": float(ck.rng.uniform(0, 6.28)), "scale": float(10.0 ** ck.rng.uniform(-1, 2)), "shift": [0.0, 0.0],
+                      "nframes": int(ck.rng.integers(2, 5)), "field": "random", "bound_factor": 0.45, "renumber": "zero", "cm": bool(i % 2),
+                      "guess_frac": [0.0, 0.3][(i // 2) % 2], "guess_zero": True, "times": "equal"})
     for i in range(8 if ck.tier == "quick" else 50):
         # tall tissues with few, widely spaced junctions lying right of the diagonal (min x > max y), moved by more than 8 % of their
         # width but less than 8 % of their height: the property's bound refers to the larger of the two extents
@@ -91,6 +98,11 @@ def run_case(ck, case, reqs, pending):
             for v in pool_ids[t]:
                 if rng.random() < case["guess_frac"] and succ[t][v] is not None:
                     guess[t][v] = succ[t][v]
+        if t < n - 1 and case.get("guess_zero"):
+            for v in pool_ids[t]:
+                if succ[t][v] == 0:
+                    guess[t][v] = 0
+                    ck.count("guesses_with_target_id_0")
     seen, final = ser.simulate_cm(s.coords0, n, case["cm"])
     use_guess = any(guess[t] for t in guess)
     f = impl.quiet(fs.ForSys, frames, cm=case["cm"], **({"initial_guess": guess} if use_guess else {}))
